@@ -279,6 +279,9 @@ func runHistory(bin, scratch string, hs *history, part *h.Partial) *histResult {
 		o.deadline = r.Exit == 108 || strings.Contains(r.Stdout, "deadline exceeded") || strings.Contains(r.Stderr, "deadline exceeded")
 		rec := stepRecord{Step: st, Args: args, Before: mon.stateString(), Obs: o}
 		part.Count("cli_runs", 1)
+		if o.Crashed {
+			part.Count("cli_crashes", 1)
+		}
 		part.Count("gets_served", int64(len(sv)))
 		part.Count("markers_seen", int64(len(o.markers)))
 		part.SetAdd("exit_codes", fmt.Sprint(r.Exit))
